@@ -1102,10 +1102,7 @@ impl<'a> CompilerState<'a> {
                         let l = lhs?;
                         fits(u32::try_from(rhs?).ok().and_then(|s| l.checked_shr(s)))?
                     }
-                    Rule::bls => {
-                        let l = lhs?;
-                        fits(u32::try_from(rhs?).ok().and_then(|s| l.checked_shl(s)))?
-                    }
+                    Rule::bls => fits(shift_left(lhs?, rhs?))?,
                     Rule::land => {
                         if lhs? != 0 && rhs? != 0 {
                             1
@@ -2346,6 +2343,12 @@ impl<'a> CompilerState<'a> {
         v.push(char::from_u32(0).unwrap());
         Ok(v)
     }
+}
+
+// l << r, or None when the count is negative or too large or the result does not fit
+pub(crate) fn shift_left(l: i32, r: i32) -> Option<i32> {
+    let s = u32::try_from(r).ok().filter(|s| *s < 32)?;
+    i32::try_from((l as i64) << s).ok()
 }
 
 fn parse_int(p: Pair<Rule>) -> Option<i32> {
